@@ -377,6 +377,31 @@ macro_rules! ecdsa_impl {
                     let q = -(Point::mulgen(&(h / r)));
                     if q.isneutral() == 0 { verify(tr, &q.encode_uncompressed().to_vec(), &sig, &hv); }
                 }
+                // x(R) in [n, p-1]: R = (n + j, y) on the curve, r = j.  The verifier must reduce
+                // x(R) modulo n before comparing with r.
+                let mut found = 0;
+                let mut j = 1u32;
+                while found < 3 && j < 400 {
+                    let x = &n + j;
+                    let mut enc = vec![2u8 + (rng.below(2) as u8)]; enc.extend_from_slice(&be32(&x));
+                    if let Some(pr) = Point::decode(&enc) {
+                        found += 1;
+                        let r = Scalar::from_u32(j);
+                        let s = Scalar::decode_reduce(&rng.bytes(48));
+                        let hv = rng.bytes(32);
+                        let h = Scalar::decode_reduce(&{ let mut x = hv.clone(); x.reverse(); x });
+                        if s.iszero() == 0 {
+                            let q = (pr * s - Point::mulgen(&h)) * (Scalar::ONE / r);
+                            let mut sig = { let mut b = r.encode().to_vec(); b.reverse(); b };
+                            sig.extend_from_slice(&{ let mut b = s.encode().to_vec(); b.reverse(); b });
+                            if q.isneutral() == 0 {
+                                verify(tr, &q.encode_uncompressed().to_vec(), &sig, &hv);
+                                let mut s2 = sig.clone(); s2[31] ^= 1; verify(tr, &q.encode_uncompressed().to_vec(), &s2, &hv);
+                            }
+                        }
+                    }
+                    j += 1;
+                }
                 // public keys: infinity encodings and malformed
                 let hv = rng.bytes(32);
                 let sig = rng.bytes(64);
